@@ -75,15 +75,30 @@ NS_ROUTES = ["deepcopy", "clone0", "clone1", "clone2", "ctor", "ctor_label", "co
 
 
 def bounds(tier):
-    if tier == "quick":
-        return {"tree_max_leaves": 4, "tree_flag_subsets": 32, "rootings": [True, False, None],
-                "chain2_tree_max_leaves": 3, "mutation_tree_max_leaves_all_rootings": 3, "mutation_tree_max_leaves": 4,
-                "treelist_max_members": 2, "matrix_types": ["dna", "standard", "continuous"], "namespace_max_taxa": 3,
-                "mutation_depth": 1}
-    return {"tree_max_leaves": 5, "tree_flag_subsets": 32, "rootings": [True, False, None],
-            "chain2_tree_max_leaves": 4, "mutation_tree_max_leaves_all_rootings": 4, "mutation_tree_max_leaves": 4,
-            "treelist_max_members": 3, "matrix_types": ["dna", "standard", "continuous"], "namespace_max_taxa": 3,
-            "mutation_depth": 1}
+    q = tier == "quick"
+    return {
+        "E1_trees": {"max_leaves": 4 if q else 5, "all_shapes_of_U(n)": True, "rootings": [True, False, None],
+                     "decoration_subsets": 32, "namespace_layouts": ["exact", "extra_low", "removed_low", "sorted_after"],
+                     "internal_taxon_and_taxonless_leaf_variant": True, "objects_per_shape": 120, "routes": TREE_ROUTES},
+        "E1_copy_of_copy": {"route_pairs": "all ordered pairs", "tree_max_leaves": 3 if q else 4,
+                            "tree_decorations": ["none", "ann", "all"], "rootings": [True, False],
+                            "other_kinds": "members<=2 / rows in {0,3} / all namespaces, decorations none|ann|all"},
+        "E1_tree_lists": {"max_members": 2 if q else 3, "member_pool": 3 if q else 4, "same_tree_twice": True,
+                          "decorations": ["none", "all", "ann", "com"], "annotation_bound_to_member": True, "routes": COLL_ROUTES},
+        "E1_matrices": {"types": ["dna", "standard", "continuous"], "rows": [0, 1, 3], "columns": 4, "decoration_subsets": 64,
+                        "routes": COLL_ROUTES},
+        "E1_namespaces": {"taxa": [0, 1, 2, 3], "layouts": ["plain", "removed_low", "sorted_after", "extra_low"],
+                          "decoration_subsets": 16, "bitmask_cache": [False, True], "routes": NS_ROUTES},
+        "E2_mutations": {"depth": 1, "sides": ["source", "copy"],
+                         "trees": ("all shapes n<=3 x {rooted, unrooted} x {all decorations, none} + undefined rooting x {ann+bip}; "
+                                   "all shapes n=4 rooted, all decorations") if q else
+                                  ("all shapes n<=4 x {rooted, unrooted} x {all decorations, none} + undefined rooting x {ann+bip}; "
+                                   "all binary shapes n=5 rooted, all decorations"),
+                         "tree_lists": "members [], [0], [1,2], [0,0], [0,1]" + ("" if q else ", [2,0,1]") + " x {all decorations, none}",
+                         "matrices": "3 types x rows {0,3}" + ("" if q else "+{1}") + " x {all decorations, none}",
+                         "namespaces": "taxa {0,1,3} x {plain, removed_low} x {all decorations, none}",
+                         "routes": "every route of the kind"},
+    }
 
 
 # ---------------------------------------------------------------------------
@@ -287,12 +302,12 @@ def thin_ns(nsnap):
 # ---------------------------------------------------------------------------
 # reachability (oracle 2)
 
-def walk(root):
+def walk(root, name=None):
     """BFS over the object graph.  Returns {id: (obj, path)} of the *mutable* objects reachable
     from root (tuples / frozensets are traversed but not recorded)."""
     seen = {}
     trav = set()
-    queue = [(root, type(root).__name__)]
+    queue = [(root, name or type(root).__name__)]
     qi = 0
     while qi < len(queue):
         o, path = queue[qi]
@@ -1315,6 +1330,8 @@ def check_state(desc, chain, ctx, with_mutations=False, only_mutation=None):
     ctx.case(("state", _key(desc), tuple(chain)), nontrivial=nontrivial)
     ctx.count("states")
     ctx.count("states_%s" % kind)
+    if len(chain) > 1:
+        ctx.count("states_copy_of_copy")
     # source
     src = BUILDERS[kind](desc)
     for r in chain[:-1]:
@@ -1348,7 +1365,7 @@ def check_state(desc, chain, ctx, with_mutations=False, only_mutation=None):
     # oracle 1
     try:
         s1, I1 = snapshot(kind, cp)
-        wc = walk(cp)
+        wc = walk(cp, kind)
     except Exception as e:
         ctx.violation("malformed-copy|%s|%s|%s" % (kind, sr, type(e).__name__),
                       "%s of %s cannot be inspected: %r" % (chain_name(chain), describe(desc), e), case)
@@ -1374,11 +1391,16 @@ def check_state(desc, chain, ctx, with_mutations=False, only_mutation=None):
     # oracle 2
     for what, msg in identity_problems(kind, src, cp, fam):
         ctx.violation("identity|%s|%s|%s" % (kind, sr, what), "%s of %s: %s" % (chain_name(chain), describe(desc), msg), case)
-    ws = walk(src)
+    ws = walk(src, kind)
     allowed = allowed_shared(kind, src, fam)
     bad = [k for k in wc if k in ws and k not in allowed]
     ctx.count("reachability_comparisons")
     ctx.maximum("max_reachable_mutable_objects", len(ws))
+    if nontrivial and len(ws) > 20:
+        ctx.sample({"state": describe(desc), "route_chain": chain_name(chain), "documented_depth": fam,
+                    "mutable_objects_reachable_from_source": len(ws), "from_copy": len(wc),
+                    "reachable_from_both": len([k for k in wc if k in ws]), "of_which_documented_shared": len([k for k in wc if k in ws and k in allowed]),
+                    "snapshots_equal": equal0}, 2)
     if bad:
         # shortest path first (BFS order of wc)
         k = bad[0]
@@ -1436,14 +1458,16 @@ def run_mutations(desc, chain, ctx, s_src0, s_cp0, only=None, equal0=True):
                 else:
                     prev = after_src.get(_mkey(m))
                     if prev is not None and prev != ("exc", type(exc).__name__):
-                        ctx.violation("mutation-raises-on-copy-only|%s|%s|%s|%s" % (kind, sr, m[0] if m[0] != "member" else m[2], type(exc).__name__),
+                        ctx.violation("mutation-raises-on-copy-only|%s|%s|%s|%s" % (kind, sr, mutation_class(m), type(exc).__name__),
                                       "%s on the %s copy of %s raised %r but works on the source" % (m, chain_name(chain), describe(desc), exc), case)
                 continue
+            if nontrivial:
+                ctx.sample({"transition": m, "applied_to": side, "of_pair": "%s / its %s copy" % (describe(desc), chain_name(chain))}, 3)
             so, _ = snapshot(kind, other)
             d = diff(b_cp0 if side == "source" else b_src0, body(kind, so, fam))
-            mname = m[0] if m[0] != "member" else "member." + m[2]
+            mname = mutation_class(m)
             if d:
-                ctx.violation("visible|%s|%s|%s-on-%s|%s" % (kind, sr, mname, side, keypath(d[0])),
+                ctx.violation("visible|%s|%s|%s" % (kind, sr, mname),
                               "%s applied to the %s is visible in the %s (%s of %s) at %s: %s -> %s" % (
                                   m, side, "copy" if side == "source" else "source", chain_name(chain), describe(desc),
                                   "/".join(d[0]), brief(d[1]), brief(d[2])), case)
@@ -1467,13 +1491,48 @@ def run_mutations(desc, chain, ctx, s_src0, s_cp0, only=None, equal0=True):
                 d = diff(a, b)
                 ctx.count("differential_comparisons")
                 if d:
-                    ctx.violation("diverges|%s|%s|%s|%s" % (kind, sr, mname, keypath(d[0])),
+                    ctx.violation("diverges|%s|%s|%s" % (kind, sr, mname),
                                   "%s has a different effect on the %s copy than on the source %s at %s: source %s, copy %s" % (
                                       m, chain_name(chain), describe(desc), "/".join(d[0]), brief(d[1]), brief(d[2])), case)
 
 
 def _mkey(m):
     return tuple(tuple(x) if isinstance(x, list) else x for x in m)
+
+
+def mutation_class(m):
+    """coarse class of a mutation for signatures (the message names the exact mutation)"""
+    name = m[2] if m[0] == "member" else m[0]
+    pre = "member-tree-" if m[0] == "member" else ""
+    if name.startswith("ann_") or name.startswith("cell_ann"):
+        c = "annotation"
+    elif name.endswith("_comment"):
+        c = "comment"
+    elif name in ("encode", "bip_edit", "remove_child_encode", "ns_bitmask"):
+        c = "bipartitions"
+    elif name.endswith("_extra") or name.endswith("_attr"):
+        c = "attribute"
+    elif name.startswith("taxon_"):
+        c = "taxon"
+    elif name.startswith("ns_"):
+        c = "namespace"
+    elif name.endswith("_label"):
+        c = "label"
+    elif name in ("edge_length", "tree_weight"):
+        c = "length"
+    elif name.startswith("list_"):
+        c = "membership"
+    elif name.startswith("row_") or name == "matrix_clear":
+        c = "rows"
+    elif name.startswith("cell_") or name.startswith("seq_"):
+        c = "sequence"
+    elif name.startswith("ctype_"):
+        c = "character-types"
+    elif name.startswith("subset_"):
+        c = "character-subsets"
+    else:
+        c = "structure"
+    return pre + c
 
 
 def _key(desc):
@@ -1571,29 +1630,30 @@ def chains2(kind):
 
 
 def mutation_tree_objects(tier):
-    b = bounds(tier)
+    nall = 3 if tier == "quick" else 4
     out = []
-    for n in range(1, b["mutation_tree_max_leaves"] + 1):
+    for n in range(1, nall + 1):
         for si in range(len(U.shapes(n))):
-            if n <= b["mutation_tree_max_leaves_all_rootings"]:
-                for rooted in (True, False):
-                    out.append({"kind": "tree", "n": n, "si": si, "rooted": rooted, "flags": list(FLAGS)})
-                    out.append({"kind": "tree", "n": n, "si": si, "rooted": rooted, "flags": []})
-                out.append({"kind": "tree", "n": n, "si": si, "rooted": None, "flags": ["ann", "bip"]})
-            else:
-                out.append({"kind": "tree", "n": n, "si": si, "rooted": True, "flags": list(FLAGS)})
+            for rooted in (True, False):
+                out.append({"kind": "tree", "n": n, "si": si, "rooted": rooted, "flags": list(FLAGS)})
+                out.append({"kind": "tree", "n": n, "si": si, "rooted": rooted, "flags": []})
+            out.append({"kind": "tree", "n": n, "si": si, "rooted": None, "flags": ["ann", "bip"]})
+    n = nall + 1
+    for si, shape in enumerate(U.shapes(n)):
+        if tier == "quick" or U.is_binary(shape):
+            out.append({"kind": "tree", "n": n, "si": si, "rooted": True, "flags": list(FLAGS)})
     return out
 
 
 def chunks(tier):
-    b = bounds(tier)
+    q = tier == "quick"
     out = []
     # E1 trees
-    for n in range(1, b["tree_max_leaves"] + 1):
+    for n in range(1, (4 if q else 5) + 1):
         for si in range(len(U.shapes(n))):
             out.append({"what": "tree_states", "n": n, "si": si, "tier": tier})
     # E1 copies of copies
-    for n in range(1, b["chain2_tree_max_leaves"] + 1):
+    for n in range(1, (3 if q else 4) + 1):
         for si in range(len(U.shapes(n))):
             out.append({"what": "tree_chains", "n": n, "si": si, "tier": tier})
     # E2 trees
